@@ -738,8 +738,8 @@ static void child_batch(int fd, RunCfg cfg, uint64_t from, uint64_t to, uint64_t
       send_msg(fd, 'S', rj.c_str(), (uint32_t)rj.size() + 1);
       samples_wanted--;
     }
-    if (out.result != RES_OK) {
-      // write a replay file for anything that is not a clean run
+    if (out.result != RES_OK && out.result != RES_CAP) {
+      // write a replay file for anything that is not a clean run (a step-cap run is inconclusive and only counted)
       char pth[512];
       snprintf(pth, sizeof pth, "%s/w%d_i%lu.replay.json", outdir, worker, (unsigned long)idx);
       if (rj.empty())
